@@ -31,6 +31,20 @@ fn image_for(index: u64, wt: &mut Tape) -> (String, Vec<u8>) {
     }
     if wt.chance(1, 12) {
         // one long string (up to the longest payload a record can carry): growth on re-encoding has nowhere to go
+        if wt.chance(1, 2) {
+            // or one boundary / path / node with thousands of points (a duplicated XY record of > 4095 points ...)
+            let npts = *wt.pick(&[4095usize, 4096, 5000, 8191]);
+            let mut n = gdsref::NLib { version: 5, dates: [0; 12], name: b"bigxy".to_vec(), units: (1e-3f64.to_bits(), 1e-9f64.to_bits()), structs: vec![], extras: vec![] };
+            let kind = *wt.pick(&[gdsref::NKind::Boundary, gdsref::NKind::Path, gdsref::NKind::Node]);
+            let mut e = gdsref::NElem::new(kind);
+            e.layer = Some(2);
+            e.xtype = Some(0);
+            e.xy = (0..2 * npts as i32).collect();
+            n.structs.push(gdsref::NStruct { dates: [0; 12], name: b"s".to_vec(), elems: vec![e] });
+            if let Ok(v) = gdsref::encode(&n) {
+                return (format!("r-gds:one-{}-point-{:?}", npts, kind), v);
+            }
+        }
         let len = *wt.pick(&[21_000usize, 22_000, 30_000, 43_690, 65_530]);
         let mut n = gdsref::NLib { version: 5, dates: [0; 12], name: b"long".to_vec(), units: (1e-3f64.to_bits(), 1e-9f64.to_bits()), structs: vec![], extras: vec![] };
         let mut e = gdsref::NElem::new(gdsref::NKind::Text);
@@ -396,6 +410,35 @@ impl Check for C10 {
             let mut cases: Vec<(String, Vec<u8>, Option<usize>)> = vec![("scale:valid".into(), big.clone(), None)];
             for cut in [big.len() - 1, big.len() / 2, endlib_at] {
                 cases.push((format!("scale:truncate@{}", cut), big[..cut].to_vec(), Some(cut)));
+            }
+            // one element with very many properties (a parser that recurses per property overflows its stack here)
+            {
+                let mut v: Vec<u8> = Vec::new();
+                for r in &base[..first_struct] {
+                    v.extend_from_slice(&rec_bytes(r));
+                }
+                let rec = |rt: u8, dt: u8, p: &[u8]| -> Vec<u8> {
+                    let mut o = ((p.len() + 4) as u16).to_be_bytes().to_vec();
+                    o.push(rt);
+                    o.push(dt);
+                    o.extend_from_slice(p);
+                    o
+                };
+                v.extend(rec(gdsref::BGNSTR, 2, &[0u8; 24]));
+                v.extend(rec(gdsref::STRNAME, 6, b"deep"));
+                v.extend(rec(gdsref::BOUNDARY, 0, &[]));
+                v.extend(rec(gdsref::LAYER, 2, &[0, 1]));
+                v.extend(rec(gdsref::DATATYPE, 2, &[0, 0]));
+                v.extend(rec(gdsref::XY, 3, &[0u8; 40]));
+                let nprops = if inp.tier == Tier::Thorough { 400_000 } else { 200_000 };
+                for i in 0..nprops {
+                    v.extend(rec(gdsref::PROPATTR, 2, &((i % 100) as i16).to_be_bytes()));
+                    v.extend(rec(gdsref::PROPVALUE, 6, b"pv"));
+                }
+                v.extend(rec(gdsref::ENDEL, 0, &[]));
+                v.extend(rec(gdsref::ENDSTR, 0, &[]));
+                v.extend(rec(gdsref::ENDLIB, 0, &[]));
+                cases.push((format!("scale:one-element-{}-properties", nprops), v, None));
             }
             let mut d = big.clone();
             let mid = big.len() / 2;
